@@ -162,9 +162,21 @@ def make_case(rnd, k, root, modules):
         lk = os.path.join(dd, 'x0000000007.c')
         if not os.path.lexists(lk):
             os.symlink(os.path.join(root, 'elsewhere', 'main.c'), lk)
+    # the output path resolved a SECOND time from inside the output directory (a relative path used again after the translator has
+    # changed into that directory) must not be touched either: put files there
+    rel_dir = os.path.dirname(outarg.rstrip('/')) if not os.path.isabs(outarg) else ''
+    if rel_dir not in ('', '.'):
+        nested = os.path.normpath(os.path.join(target_dir, rel_dir))
+        if nested.startswith(root + os.sep) and len(nested) < 3000:
+            os.makedirs(nested, exist_ok=True)
+            for n in (base, header_name(base), 's0000000000.c'):
+                pth = os.path.join(nested, n)
+                if not os.path.lexists(pth):
+                    with open(pth, 'w') as f:
+                        f.write('nested decoy %s\n' % n)
     ropts = [os.path.join(root, 'in', 'ref_' + rname + '.wasm') if o == 'REF' else o for o in opts]
     return dict(pf=pf, cf=cf, opts=opts, ropts=ropts, cwd=cwd, outarg=outarg, target_dir=target_dir, base=base,
-                module=os.path.join(root, 'in', name + '.wasm'), decoys=tuple(sorted(chosen)))
+                module=os.path.join(root, 'in', name + '.wasm'), decoys=tuple(sorted(chosen)), may_fail=name.startswith('fail') or (rname.startswith('fail') and 'REF' in opts))
 
 
 def header_name(base):
@@ -184,6 +196,14 @@ def main(chk):
     modules.append(('empty', wasm.Module().encode()))
     c = gen.build_program_module(env.rng('c20-gen'), gen.Profile(), n_funcs=6)
     modules.append(('genprog', c.mod.encode()))
+    # inputs on which the translation FAILS after it has started writing (an instruction outside the supported feature set in the
+    # last function) or before (truncated file): a failing run must respect the same footprint rules
+    fm = wasm.Module()
+    for i in range(3):
+        fm.add_func([], [wasm.I32], [], [('i32.const', i)], export='ok%d' % i)
+    fm.funcs.append(wasm.Func(fm.add_type([], [wasm.I32]), raw=b'\x00\xd0\x70\xd1\x0b'))   # ref.null func ; ref.is_null
+    modules.append(('fail-unsupported', fm.encode()))
+    modules.append(('fail-truncated', modules[1][1][:len(modules[1][1]) // 2]))
     ncases = 300 if quick else 5000
     base_root = env.subdir('c20')
 
@@ -212,9 +232,15 @@ def main(chk):
                 chk.observe('opt_' + o)
         desc = 'cwd=%s output=%s options=%s' % (cs['cf'], cs['outarg'].replace(root, '<root>'), ' '.join(cs['opts']))
         files = {'case.txt': desc + '\nmodule=%s\n' % os.path.basename(cs['module']), 'strace.txt': st[-20000:], 'stderr.txt': r.err[-3000:]}
+        failed_run = False
         if r.rc != 0 or r.timeout:
-            chk.violation('C20:exit:%s:%s' % (r.rc, cs['pf']), 'translator failed (%s): %s' % (desc, r.err[-400:]), files)
-            continue
+            if cs['may_fail'] and not r.timeout and r.rc > 0:
+                # a module the translator cannot translate: the run may fail, but what it touched on the way is judged all the same
+                failed_run = True
+                chk.observe('failing_runs_judged')
+            else:
+                chk.violation('C20:exit:%s:%s' % (r.rc, cs['pf']), 'translator failed (%s): %s' % (desc, r.err[-400:]), files)
+                continue
         tdir = os.path.relpath(cs['target_dir'], root)
         external = '-d' in cs['opts']
         clean = '-c' in cs['opts']
@@ -240,6 +266,8 @@ def main(chk):
             if not ok:
                 chk.violation('C20:deleted:%s' % re.sub(r'\d', '0', n)[:24], 'deleted %s (%s)' % (p, desc), files)
         rel_out = os.path.normpath(os.path.join(tdir, cs['base']))
+        if failed_run:
+            continue
         if rel_out not in after or after[rel_out][0] != 'file':
             near = [p for p in created if os.path.dirname(p) == os.path.dirname(rel_out)]
             chk.violation('C20:misnamed-output:%s' % cs['pf'], 'requested output %s does not exist after the run; created: %s (%s)' % (rel_out, near[:4], desc), files)
